@@ -34,6 +34,19 @@ class SymSlice(metaclass=_SliceMeta):
         # with concrete arguments the stand-in is the builtin slice (usable as a NumPy index)
         if not force and not any(has_shadow(v) for v in a):
             return builtins.slice(*a)
+        if not force and len(a) == 3 and Ctx.cur is not None:
+            # slice(*index.indices(n)) with a small concrete n: the normalised bounds range over 0..n only,
+            # so they are concretised (bounded fork) and the result is again a builtin slice
+            ctx = Ctx.cur
+            small = True
+            for v in a:
+                if isinstance(v, SInt):
+                    r, _ = ctx._check(z3.Or(v.e > 32, v.e < -32))
+                    if r != "unsat":
+                        small = False
+                        break
+            if small:
+                return builtins.slice(*[v.__index__() if isinstance(v, SInt) else v for v in a])
         return object.__new__(cls)
 
     def __init__(s, *a, force=False):
